@@ -523,11 +523,20 @@ impl<'a> Gen<'a> {
                     4 => ";".to_string(),
                     _ => format!("{{ {} }}", self.stmt(d)),
                 };
-                let cond = match self.rng.below(4) {
+                let cond = match self.rng.below(11) {
                     0 => format!("i < {}.length", arr),
                     1 => format!("{}.length > i", arr),
                     2 => format!("i < {}.length && i < {}.length", arr, other),
-                    _ => format!("i <= {}.length - 1", arr),
+                    3 => format!("i <= {}.length - 1", arr),
+                    // the length is not the first member access of the condition, is an argument, sits under a cast, an
+                    // index, a ternary, or belongs to a nested member chain
+                    4 => format!("i < cfg.limit && i < {}.length", arr),
+                    5 => format!("i < Bounds.min({}.length, {})", arr, other),
+                    6 => format!("block.number + i < {}.length", arr),
+                    7 => format!("i < uint256({}.length) - cfg.margin", arr),
+                    8 => format!("i < self.items[{}.length - 1].length", arr),
+                    9 => format!("(i < 10 ? i < {}.length : i < {}.length)", arr, other),
+                    _ => format!("msg.sender != owner && {}[i].data.length > 0", arr),
                 };
                 format!("for (uint256 i = 0; {}; {}) {}", cond, self.pick(&["i++", "++i", "i += 1"]), body)
             }
